@@ -58,7 +58,18 @@ def nd_cases(rng, tier):
                     shape = [rng.randint(lo, 4 if ndim > 1 else 6) for _ in range(ndim)]
                     dxs = [rng.choice([1.0, 0.5, 2.0, 0.25]) for _ in range(ndim)]
                     c = float(rng.choice([0, 0, 0, 1, -2])) if p == 'constant' else 0.0
-                    space = odl.uniform_discr([0.0] * ndim, [n * d for n, d in zip(shape, dxs)], shape)
+                    # grid placement: nodes in the cell centres, or on the boundary per axis/side -- the
+                    # operators must take their step from space.cell_sides (= grid stride) in every case
+                    bdry = rng.choice([None, None, True, 'mixed'])
+                    if bdry is None:
+                        space = odl.uniform_discr([0.0] * ndim, [n * d for n, d in zip(shape, dxs)], shape)
+                    else:
+                        flags = ([(True, True)] * ndim if bdry is True else
+                                 [(rng.random() < 0.5, rng.random() < 0.5) for _ in range(ndim)])
+                        # extent chosen so that the cell side is exactly dxs[i]: side * (n - (bl + br) / 2)
+                        ext = [d * (n - (int(fl[0]) + int(fl[1])) / 2.0) for n, d, fl in zip(shape, dxs, flags)]
+                        space = odl.uniform_discr([0.0] * ndim, ext, shape, nodes_on_bdry=flags)
+                        assert np.allclose(space.cell_sides, dxs)
                     if kind == 'pd':
                         ax = rng.randrange(ndim)
                         op = odl.PartialDerivative(space, ax, method=m, pad_mode=p, pad_const=c)
@@ -226,6 +237,30 @@ def probes(rng, tier):
             out.append(C.Probe(bool(ok), 'affine-derivative-%s-%s' % (kind, m),
                                '%s with pad_const=%r: derivative is the zero-padding operator and the operator is flagged nonlinear' % (kind, c),
                                None, {'shape': shape}))
+    # nodes on the boundary: every operator divides by space.cell_sides (the grid stride), and
+    # Divergence stays minus the transpose of Gradient
+    for flags in (True, [(True, False), (False, True)], [(False, False), (True, True)]):
+        for m in METHS:
+            shape = [rng.randint(3, 5), rng.randint(3, 5)]
+            sp = odl.uniform_discr([0, 0], [1, 3], shape, nodes_on_bdry=flags)
+            rp = ("import odl, numpy as np, sys\nsys.path.insert(0, %r)\nfrom harness.c13 import _matrix, _ref_fd\n"
+                  "sp=odl.uniform_discr([0,0],[1,3],%r,nodes_on_bdry=%r)\nm=%r\n"
+                  "G=_matrix(odl.Gradient(sp,method=m,pad_mode='symmetric')); D=_matrix(odl.Divergence(range=sp,method={'forward':'backward','backward':'forward','central':'central'}[m],pad_mode='symmetric_adjoint'))\n"
+                  "x=np.arange(float(np.prod(sp.shape))).reshape(sp.shape)**2\n"
+                  "pd=np.asarray(odl.PartialDerivative(sp,1,method=m,pad_mode='order1')(x))\n"
+                  "want=np.array([_ref_fd(r,m,'order1',0.0,sp.cell_sides[1]) for r in x])\n"
+                  "dv=np.asarray(odl.Divergence(range=sp,method=m,pad_mode='order1')([x,x]))\n"
+                  "dwant=np.array([_ref_fd(c,m,'order1',0.0,sp.cell_sides[0]) for c in x.T]).T+want\n"
+                  "observed=[float(abs(D+G.T).max()),float(abs(pd-want).max()),float(abs(dv-dwant).max())]; expected=[0,0,0]\n"
+                  "ok=bool(np.allclose(D,-G.T,atol=1e-12) and np.allclose(pd,want,atol=1e-10) and np.allclose(dv,dwant,atol=1e-10))\n"
+                  % (C.VERIF, shape, flags, m))
+            env = {}
+            try:
+                exec(rp, env); ok = env['ok']
+            except Exception:
+                ok = False
+            out.append(C.Probe(ok, 'nodes-on-bdry-step-%s' % m,
+                               'PartialDerivative/Divergence use cell_sides and Divergence = -Gradient^T with nodes_on_bdry=%r, shape %s' % (flags, shape), rp))
     # the set of pad modes Laplacian accepts is the set the self-adjointness theorem covers (lap_mode)
     sp2 = odl.uniform_discr([0, 0], [3, 3], [3, 3])
     for p in PMODES:
